@@ -111,7 +111,7 @@ pub fn enter_proof() -> Option<Scope> {
 const READBACK_MAX: usize = 96;
 const EMPTIES_MAX: usize = 512;
 
-fn post_state<T: ZerokitMerkleTree>(t: &T, touched: &[usize]) -> String {
+fn post_state<T: ZerokitMerkleTree>(t: &T, touched: &[usize], empties: bool) -> String {
     let r = std::panic::catch_unwind(std::panic::AssertUnwindSafe(|| {
         let mut s = format!(
             "\"root\":{},\"next\":{},\"d\":{}",
@@ -135,7 +135,7 @@ fn post_state<T: ZerokitMerkleTree>(t: &T, touched: &[usize]) -> String {
             })
             .collect();
         let _ = write!(s, ",\"rb\":[{}]", rb.join(","));
-        if t.leaves_set() <= EMPTIES_MAX {
+        if empties && t.leaves_set() <= EMPTIES_MAX {
             let _ = write!(s, ",\"empties\":{}", n_list(&t.get_empty_leaves_indices()));
         }
         s
@@ -164,7 +164,7 @@ impl Scope {
             "{},\"res\":\"{}\",{}",
             self.head,
             if ok { "ok" } else { "err" },
-            post_state(t, touched)
+            post_state(t, touched, true)
         );
         emit(&body);
         INSIDE.with(|c| c.set(false));
@@ -192,7 +192,7 @@ impl Scope {
             None => "\"res\":\"err\"".to_string(),
         }))
         .unwrap_or_else(|_| "\"res\":\"panic\"".to_string());
-        emit(&format!("{},{},{}", self.head, exposed, post_state(t, &[])));
+        emit(&format!("{},{},{}", self.head, exposed, post_state(t, &[], false)));
         INSIDE.with(|c| c.set(false));
     }
 
@@ -213,7 +213,7 @@ impl Scope {
                 q(&std::any::type_name::<T::Hasher>()),
                 q(&<T::Hasher as Hasher>::default_leaf()),
                 init,
-                post_state(t, &[])
+                post_state(t, &[], true)
             ),
             None => format!(
                 "\"inst\":0,\"be\":\"{}\",\"h\":{},\"ev\":\"new\",\"res\":\"err\",\"d\":{}",
